@@ -107,7 +107,8 @@ def build_bundle(design: dict, bname: str, built: Built) -> h.Bundle:
         b.add(sig, name=name)
     for sub in bd["subs"]:
         subdef = build_bundle(design, sub[1], built)
-        b.add(h.BundleInstance(of=subdef, flipped=bool(sub[2])), name=sub[0])
+        subrole = built.roles[sub[1]].get(sub[3]) if len(sub) > 3 and sub[3] else None
+        b.add(h.BundleInstance(of=subdef, flipped=bool(sub[2]), role=subrole), name=sub[0])
     built.bundles[bname] = b
     return b
 
@@ -181,7 +182,13 @@ class ModBuilder:
         for bp in ms.get("bports", []):
             bdef = build_bundle(self.design, bp[1], built)
             role = built.roles[bp[1]].get(bp[3]) if len(bp) > 3 and bp[3] else None
-            self.attrs[bp[0]] = h.BundleInstance(of=bdef, port=True, flipped=bool(bp[2]) if len(bp) > 2 else False, role=role)
+            flip = bool(bp[2]) if len(bp) > 2 else False
+            if len(bp) > 4 and bp[4] == "fn":
+                # flip through the `h.flipped()` function instead of the constructor flag
+                bi = h.flipped(h.BundleInstance(of=bdef, port=True, flipped=not flip, role=role))
+            else:
+                bi = h.BundleInstance(of=bdef, port=True, flipped=flip, role=role)
+            self.attrs[bp[0]] = bi
         for s in ms["sigs"]:
             self.attrs[s[0]] = h.Signal(width=s[1])
         for b in ms.get("buns", []):
